@@ -16,6 +16,7 @@ from harness import vlib
 # switch: reading of "elements need no conversion".  True = semantic (Optional[int] elements need
 # no conversion) -> the generator's extra copy for Optional elements is a (known) finding.
 SEMANTIC_CONV_FREE = True
+UNION_IN_MODEL = True       # decode-side unions are part of the Coq grammar (Share.v TUnion)
 
 # ---------------------------------------------------------------------------
 # origins
@@ -82,6 +83,7 @@ class Schema:
         self.nts = []         # named tuples: [(fname, ty)]
         self.tds = []         # typed dicts: [(key, ty, required)]
         self.dialects = []    # list of (None | list of origin names)   None = no no_copy_collections attribute
+        self.tvars = []       # constrained TypeVars: tuple of member types
         self.model = True     # every type is inside the Coq grammar
 
 
@@ -132,6 +134,12 @@ def gen_ty(rng, sch: Schema, depth: int, lower_classes: list, extras: bool):
         if t[0] in ("opt", "any", "union"):
             return t
         return ("opt", t)
+    if r < 0.50:
+        return gen_bare(rng)
+    if r < 0.56 and WIRE_SIDE[0]:
+        if not UNION_IN_MODEL:
+            sch.model = False
+        return gen_union_containers(rng, sch, lower_classes)
     if r < 0.66:
         o = rng.choice(["list", "list", "list", "set", "frozenset", "deque", "Sequence", "MutableSequence",
                         "AbstractSet", "MutableSet", "list", "set"])
@@ -172,6 +180,58 @@ def gen_ty(rng, sch: Schema, depth: int, lower_classes: list, extras: bool):
             return ("lit", tuple(rng.sample([1, 2, 3, "a", "b"], 2)))
         return gen_union(rng, sch, depth, lower_classes)
     return ("seq", "list", ("atom", "int"))
+
+
+BARE = {  # bare annotation -> equivalent parametrised type (items are Any positions); 4th/5th element marks the spelling
+    "list": ("seq", "list", ("any",), "bare:list"), "List": ("seq", "list", ("any",), "bare:typing.List"),
+    "set": ("seq", "set", ("any",), "bare:set"), "frozenset": ("seq", "frozenset", ("any",), "bare:frozenset"),
+    "tuple": ("tupv", ("any",), "bare:tuple"), "dict": ("map", "dict", ("any",), ("any",), "bare:dict"),
+    "Dict": ("map", "dict", ("any",), ("any",), "bare:typing.Dict"),
+}
+
+
+def bare_spelling(t):
+    return t[-1][5:] if isinstance(t[-1], str) and t[-1].startswith("bare:") else None
+
+
+def gen_bare(rng):
+    return BARE[rng.choice(["list", "list", "dict", "dict", "set", "tuple", "frozenset", "List", "Dict"])]
+
+
+def container_member(rng, sch, lower_classes):
+    """a union member that is a container: bare or parametrised list / dict / set / tuple / frozenset, or a record"""
+    q = rng.random()
+    if q < 0.4:
+        return gen_bare(rng)
+    if q < 0.9 or not lower_classes:
+        return rng.choice([
+            ("seq", "list", ("atom", "int")), ("seq", "list", ("atom", "str")), ("seq", "list", ("any",)),
+            ("map", "dict", ("atom", "str"), ("atom", "int")), ("map", "dict", ("atom", "str"), ("any",)),
+            ("seq", "set", ("atom", "int")), ("tupv", ("atom", "int")), ("seq", "frozenset", ("atom", "str")),
+            ("seq", "list", ("seq", "list", ("atom", "int"))), ("map", "dict", ("atom", "str"), ("seq", "list", ("atom", "int"))),
+            ("seq", "list", ("leaf", "date")), ("seq", "deque", ("atom", "int")), ("tup", (("atom", "int"), ("atom", "str"))),
+            ("map", "OrderedDict", ("atom", "str"), ("atom", "float")),
+        ])
+    return ("dc", rng.choice(lower_classes))
+
+
+def gen_union_containers(rng, sch, lower_classes):
+    """unions with container members (the decode side tells members apart by trying them in order; scalars by
+    exact type): 1-2 containers + 0-2 scalars (+ None = Optional-of-union), as Union or as TypeVar constraints"""
+    members = []
+    for _ in range(rng.choice([1, 1, 2])):
+        m = container_member(rng, sch, lower_classes)
+        if m not in members:
+            members.append(m)
+    for a in rng.sample(["int", "str", "float", "bool", "none"], rng.choice([0, 1, 1, 2])):
+        members.append(("atom", a))
+    if len(members) < 2:
+        members.append(("atom", rng.choice(["int", "str"])))
+    rng.shuffle(members)
+    if rng.random() < 0.2 and ("atom", "none") not in members:
+        sch.tvars.append(tuple(members))
+        return ("union", tuple(members), "tvar", len(sch.tvars) - 1)
+    return ("union", tuple(members))
 
 
 def gen_union(rng, sch, depth, lower_classes):
@@ -302,7 +362,7 @@ def gen_schema_focus(rng) -> Schema:
 def ty_src(t, sch: Schema) -> str:
     k = t[0]
     if k == "atom":
-        return t[1]
+        return "None" if t[1] == "none" else t[1]
     if k == "leaf":
         return {"date": "datetime.date", "decimal": "decimal.Decimal", "bytearray": "bytearray"}[t[1]]
     if k == "any":
@@ -313,6 +373,8 @@ def ty_src(t, sch: Schema) -> str:
         return ty_src(t[1], sch)
     if k == "opt":
         return f"typing.Optional[{ty_src(t[1], sch)}]"
+    if bare_spelling(t):
+        return bare_spelling(t)
     if k == "seq":
         return SEQ_ORIGINS[t[1]][0].format(ty_src(t[2], sch))
     if k == "tupv":
@@ -330,6 +392,8 @@ def ty_src(t, sch: Schema) -> str:
     if k == "chain":
         return f"typing.ChainMap[{ty_src(t[1], sch)}, {ty_src(t[2], sch)}]"
     if k == "union":
+        if len(t) > 2 and t[2] == "tvar":
+            return f"TV{t[3]}"
         return "typing.Union[" + ", ".join(ty_src(x, sch) for x in t[1]) + "]"
     if k == "lit":
         return "typing.Literal[" + ", ".join(repr(x) for x in t[1]) + "]"
@@ -353,7 +417,7 @@ def schema_src(sch: Schema, top=None) -> str:
     out.append("class DP(Dialect):\n    serialization_strategy = {Opaque: pass_through}\n")
     # named tuples / typed dicts may mention classes and each other: emit classes bottom-up and
     # the record types lazily before their first use
-    emitted_nt, emitted_td = set(), set()
+    emitted_nt, emitted_td, emitted_tv = set(), set(), set()
 
     def emit_records(t):
         k = t[0]
@@ -368,6 +432,10 @@ def schema_src(sch: Schema, top=None) -> str:
         elif k in ("tup", "union"):
             for x in t[1]:
                 emit_records(x)
+        if k == "union" and len(t) > 2 and t[2] == "tvar" and t[3] not in emitted_tv:
+            emitted_tv.add(t[3])
+            out.append(f"TV{t[3]} = typing.TypeVar('TV{t[3]}', " + ", ".join(ty_src(x, sch) for x in t[1]) + ")")
+            out.append("")
         elif k == "nt" and t[1] not in emitted_nt:
             emitted_nt.add(t[1])
             for _, ft in sch.nts[t[1]]:
@@ -438,6 +506,8 @@ def gen_any_src(rng, depth, jsonish: bool) -> str:
 
 
 def atom_src(rng, n) -> str:
+    if n == "none":
+        return "None"
     if n == "int":
         return str(rng.choice([0, 1, -7, 2 ** 40, 12345]))
     if n == "str":
@@ -501,7 +571,8 @@ def gen_value_src(rng, t, sch: Schema, depth: int, wire: bool = False) -> str:
     if k == "seq":
         o = t[1]
         if o in SET_LIKE:
-            items = distinct_hashables(rng, t[2], sch, n(), wire)
+            et = t[2] if t[2] != ("any",) else ("atom", rng.choice(["int", "str"]))    # Any items of a set: hashable ones
+            items = distinct_hashables(rng, et, sch, n(), wire)
         else:
             items = [gen_value_src(rng, t[2], sch, depth - 1, wire) for _ in range(n())]
         body = ", ".join(items)
@@ -530,7 +601,8 @@ def gen_value_src(rng, t, sch: Schema, depth: int, wire: bool = False) -> str:
         return "{" + ", ".join(parts) + "}"
     if k == "map":
         o = t[1]
-        keys = distinct_hashables(rng, t[2], sch, n(), wire)
+        kt = t[2] if t[2] != ("any",) else ("atom", "str")
+        keys = distinct_hashables(rng, kt, sch, n(), wire)
         if wire:
             keys = [x for x in keys if x != "None"]
         vals = [gen_value_src(rng, t[3], sch, depth - 1, wire) for _ in keys]
@@ -574,9 +646,15 @@ def gen_value_src(rng, t, sch: Schema, depth: int, wire: bool = False) -> str:
     raise ValueError(t)
 
 
+PREFER_CONTAINER = [False]    # probes: always exercise the container member of a union
+
+
 def gen_union_value(rng, t, sch, depth, wire):
     if True:
         m = rng.choice(t[1])
+        conts = [x for x in t[1] if x[0] in ("seq", "map", "tupv", "tup", "dc")]
+        if conts and (PREFER_CONTAINER[0] or rng.random() < 0.5):
+            m = rng.choice(conts)
         if m[0] in ("seq", "map"):
             # non-empty, so that the value conforms to exactly one member
             for _ in range(20):
@@ -742,7 +820,7 @@ def conv_free(t, vw: View, semantic: bool) -> bool:
 def conforms(t, v, sch) -> bool:
     k = t[0]
     if k == "atom":
-        return type(v).__name__ == t[1]
+        return v is None if t[1] == "none" else type(v).__name__ == t[1]
     if k == "leaf":
         return type(v).__name__ == {"date": "date", "decimal": "Decimal", "bytearray": "bytearray"}[t[1]]
     if k in ("any", "pass"):
@@ -1057,7 +1135,40 @@ def coq_ty(t, sch) -> str:
         return f"(TMap {MAP_ORIGINS[t[1]][2]} {coq_ty(t[2], sch)} {coq_ty(t[3], sch)})"
     if k == "dc":
         return f"(TDC {t[1]})"
+    if k == "union" and WIRE_SIDE_COQ[0]:
+        return coq_union(t, sch)
     raise ValueError(t)
+
+
+WIRE_SIDE_COQ = [False]     # unions are part of the Coq grammar on the decode side only
+
+
+def coq_union(t, sch) -> str:
+    """Share.v tells union members apart by the class of the wire value.  That is what the library does when
+    (i) members are scalars (exact type match) and containers (tried in order), (ii) at most one member takes a
+    list and at most one a mapping, (iii) no member that would iterate a str / a mapping's keys comes before the
+    str / mapping member.  Other unions stay oracle-only (ValueError -> the case is not sent to Coq)."""
+    ms = [m for m in t[1] if m != ("atom", "none")]
+    has_none = len(ms) != len(t[1])
+    seqs, maps = [], []
+    for i, m in enumerate(ms):
+        if m[0] == "atom":
+            continue
+        if m[0] in ("seq", "tupv", "tup", "nt"):
+            seqs.append(i)
+        elif m[0] in ("map", "dc"):
+            maps.append(i)
+        else:
+            raise ValueError("union member outside the model")
+    if len(seqs) > 1 or len(maps) > 1 or not ms:
+        raise ValueError("union members not told apart by class")
+    for i, m in enumerate(ms):
+        if m == ("atom", "str") and seqs and seqs[0] < i:
+            raise ValueError("a str would be iterated by an earlier member")
+    if seqs and maps and seqs[0] < maps[0]:
+        raise ValueError("a mapping would be iterated by an earlier member")
+    body = "(TUnion [" + "; ".join(coq_ty(m, sch) for m in ms) + "])"
+    return f"(TOpt {body})" if has_none else body
 
 
 def coq_classes(sch: Schema) -> str:
@@ -1173,6 +1284,49 @@ def fixed_cases(rng, side: str):
     return out
 
 
+def union_probe_fields():
+    """systematic sweep: every container kind (bare and parametrised) as a union member at every position kind"""
+    conts = [BARE["list"], BARE["dict"], BARE["set"], BARE["tuple"], BARE["frozenset"],
+             ("seq", "list", ("atom", "int")), ("map", "dict", ("atom", "str"), ("atom", "int")),
+             ("seq", "set", ("atom", "int")), ("tupv", ("atom", "int")), ("seq", "list", ("any",)),
+             ("map", "dict", ("atom", "str"), ("any",))]
+    fields, tvars = [], []
+    for c in conts:
+        fields.append(("union", (("atom", "int"), c)))                                                 # field
+        fields.append(("seq", "list", ("union", (("atom", "str"), c))))                                # list item
+        fields.append(("map", "dict", ("atom", "str"), ("union", (("atom", "str"), ("atom", "float"), c))))   # dict value
+        fields.append(("tup", (("union", (c, ("atom", "int"))), ("atom", "str"))))                     # tuple item
+        fields.append(("union", (("atom", "int"), c, ("atom", "none"))))                               # Optional of union
+        tvars.append((("atom", "str"), c))
+        fields.append(("union", tvars[-1], "tvar", len(tvars) - 1))                                    # TypeVar constraints
+    return fields, tvars
+
+
+def union_probe_cases(rng, side: str):
+    fields, tvars = union_probe_fields()
+    out = []
+    chunk = 11
+    for k in range(0, len(fields), chunk):
+        for entry in ({"api": "mixin", "fmt": None}, {"api": "codec", "fmt": None, "dd": None}):
+            sch = Schema()
+            sch.dialects = [["list", "dict"]]
+            sch.tvars = tvars
+            sch.model = UNION_IN_MODEL and side == "unpack"
+            sch.classes = [{"name": "C0", "base": "dict", "sup": False, "dialect": None,
+                            "fields": [(f"f{j}", t) for j, t in enumerate(fields[k:k + chunk])]}]
+            c = Case()
+            c.side, c.sch, c.entry, c.top, c.focus = side, sch, entry, ("dc", 0), True
+            c.src = schema_src(sch, c.top)
+            PREFER_CONTAINER[0] = True
+            try:
+                c.value_src = gen_value_src(rng, c.top, sch, 2, wire=(side == "unpack"))
+            finally:
+                PREFER_CONTAINER[0] = False
+            c.call_src = entry_call_src(entry, ty_src(c.top, sch), side)
+            out.append(c)
+    return out
+
+
 def run_case(c: Case):
     """executes the call on the real library; fills c.v (argument), c.res / c.exc, snapshots"""
     mod = materialise(c.src)
@@ -1257,7 +1411,7 @@ def oracle(ctx, c: Case):
                  replay_dict(c, {"shared_paths": describe(shared.values(), c)}, {"shared_paths": describe(exp_ids.values(), c)}),
                  {**sig_base, "kind": "extra-share", "cause": cause})
         failed = True
-    if missing:
+    if missing and c.side == "pack":
         # the only tolerated reason: Optional[...] elements (generator compares expression strings)
         cause = "other"
         if c.side == "pack" and gaps:
@@ -1319,10 +1473,50 @@ def expected_any(t, w, sch: Schema, out: list):
             for a, b in m.items():
                 expected_any(t[2], b, sch, out)
     elif k == "union":
-        pass        # unions on the decode side: every member builds anew; Any members are not generated
+        # whichever member decodes the value: only that member's Any / pass_through positions may keep input
+        # objects -- the union of them over the members the value fits is the upper bound the property allows
+        for m in t[1]:
+            if wire_fits(m, w, sch):
+                expected_any(m, w, sch, out)
     elif k == "dc":
         for fn, ft in sch.classes[t[1]]["fields"]:
             expected_any(ft, w[fn], sch, out)
+
+
+def wire_fits(t, w, sch: Schema) -> bool:
+    """could a decoder of type t accept the wire value w (shape only)"""
+    k = t[0]
+    if k == "atom":
+        return w is None if t[1] == "none" else isinstance(w, (bool, int, float, str))
+    if k == "leaf":
+        return isinstance(w, str)
+    if k in ("any", "opq", "pass"):
+        return True
+    if k == "opt":
+        return w is None or wire_fits(t[1], w, sch)
+    if k == "seq":
+        return isinstance(w, list) and all(wire_fits(t[2], x, sch) for x in w)
+    if k == "tupv":
+        return isinstance(w, list) and all(wire_fits(t[1], x, sch) for x in w)
+    if k == "tup":
+        return isinstance(w, list) and len(w) == len(t[1]) and all(wire_fits(a, x, sch) for a, x in zip(t[1], w))
+    if k == "nt":
+        return isinstance(w, list) and len(w) == len(sch.nts[t[1]]) and all(
+            wire_fits(a, x, sch) for (_, a), x in zip(sch.nts[t[1]], w))
+    if k == "td":
+        return isinstance(w, dict)
+    if k == "map":
+        return isinstance(w, dict) and all(wire_fits(t[3], b, sch) for b in w.values())
+    if k == "chain":
+        return isinstance(w, list)
+    if k == "lit":
+        return w in t[1]
+    if k == "union":
+        return any(wire_fits(m, w, sch) for m in t[1])
+    if k == "dc":
+        c = sch.classes[t[1]]
+        return isinstance(w, dict) and all(fn in w and wire_fits(ft, w[fn], sch) for fn, ft in c["fields"])
+    return False
 
 
 # ---------------------------------------------------------------------------
@@ -1334,6 +1528,7 @@ def coq_case(c: Case) -> str | None:
     if not sch.model or c.exc is not None:
         return None
     vw = entry_view(c.entry, sch, use_readme=False)
+    WIRE_SIDE_COQ[0] = c.side == "unpack"
     labels = label_input(c.v)
     if len(labels) >= N0:
         return None
@@ -1437,7 +1632,7 @@ def run(ctx: vlib.Ctx):
     for side, n in (("pack", n_pack), ("unpack", n_unpack)):
         cases = []
         attempts = 0
-        probes = fixed_cases(ctx.rng, side)
+        probes = fixed_cases(ctx.rng, side) + union_probe_cases(ctx.rng, side)
         while len(cases) < n and attempts < n * 3:
             attempts += 1
             extras = ctx.rng.random() < 0.3
@@ -1451,6 +1646,8 @@ def run(ctx: vlib.Ctx):
             finally:
                 pass
             c.coq = coq_case(c)         # before the oracle damages the result
+            if mentions(c.top, "union") or any(mentions(ft, "union") for k in c.sch.classes for _, ft in k["fields"]):
+                ctx.hist("union_cases", f"{side}:" + ("model+oracle" if c.coq else "oracle-only"))
             cases.append(c)
             hist_case(ctx, c)
             ctx.count(shape_key(c))
@@ -1463,7 +1660,7 @@ def run(ctx: vlib.Ctx):
             drop_module(c.mod)
 
 
-THEOREMS = ["C18_share", "C18_decode_fresh", "C18_default_fresh", "C18_decode_all_fresh", "C18_no_mutation",
+THEOREMS = ["C18_share", "C18_decode_fresh", "C18_default_fresh", "C18_decode_all_fresh", "C18_decode_union_fresh", "C18_no_mutation",
             "C18_decode_no_mutation", "C18_share_partial", "C18_share_full_refuted"]
 
 
